@@ -73,15 +73,15 @@ func (p *WorkPool) finished() {
 }
 
 type HarnessResult struct {
-	H         *Harness
-	Stats     Stats
-	Findings  []*Finding
-	Covers    map[string]*Finding
+	H                               *Harness
+	Stats                           Stats
+	Findings                        []*Finding
+	Covers                          map[string]*Finding
 	Queries, NSat, NUnsat, NUnknown int
-	SolverWall time.Duration
-	Wall       time.Duration
-	Workers    int
-	Err        string
+	SolverWall                      time.Duration
+	Wall                            time.Duration
+	Workers                         int
+	Err                             string
 }
 
 func mergeStats(dst *Stats, s *Stats) {
